@@ -338,3 +338,14 @@ def _c14_extra(pid, tier, seed):
 
 
 PROPS["C14"]["extra"] = _c14_extra
+
+# ---- the SeekNum impls of the third-party crate `cipher` (hand model CC.ChaCha.fromBlockByte / SeekTy) are tied to the crate source
+#      pinned in Cargo.lock by tools/inventory_seeknum.py -> lean/CC/Gen/SeekNumSrc.lean, obligations lean/CC/ChaCha/SrcSeekNum.lean
+for _pid in ("C02", "C11"):
+    if "source_seeknum_match" not in PROPS[_pid]["theorems"]:
+        PROPS[_pid]["theorems"] = list(PROPS[_pid]["theorems"]) + ["source_seeknum_match"]
+    _te = ("tools/inventory_seeknum.py (translator for cipher's impl_seek_num! and the &mut C impl): its reading table printed in the header of "
+           "lean/CC/Gen/SeekNumSrc.lean (integer values as Int with the type's range, core's integer TryFrom / TryInto = 'fits the target', "
+           "`as` = wrap into the range, checked_* , unchecked + as a debug-profile guard, / % with the zero / MIN/-1 guards, usize = 64 bits)")
+    if _te not in PROPS[_pid].get("trusted_extra", []):
+        PROPS[_pid]["trusted_extra"] = list(PROPS[_pid].get("trusted_extra", [])) + [_te]
